@@ -1,6 +1,7 @@
 import StorageModel.Driver.Common
 import StorageModel.Query.Wire
 import StorageModel.Query.ObjectzTime
+import StorageModel.Query.ObjectzHistory
 /- model driver for C19: `run spec` reads case lines on stdin and prints one output line per case
    (spec = false: the engine models of boltz and objectz; spec = true: the spec's verdict). -/
 namespace StorageModel.Driver.C19
@@ -118,6 +119,198 @@ def specLine (c : Case) (variant : String) : String :=
     let ans := ansOf ((objDeclOf variant).map fun (n, t) => (n, ⟨t, false⟩)) c.sort
     s!"bolt={bolt}|obj={ans}|objc={ans}/{ans}/{state}"
 
+/-! ### histories of calls on one set of store objects (`H` lines, see /verif/harness/c19_history.go) -/
+
+def parseXAtom (s : String) : Option XFilter :=
+  match s.splitOn "." with
+  | ["fn", sym, kind, c] => do
+    let v ← strTok c
+    if kind == "c" then some (.strFn sym .contains false v)
+    else if kind == "nc" then some (.strFn sym .contains true v)
+    else if kind == "ic" then some (.strFn sym .icontains false v)
+    else if kind == "nic" then some (.strFn sym .icontains true v)
+    else none
+  | _ => (parseAtom s).map .base
+
+def parseXPrefix : Nat → List String → Option (XFilter × List String)
+  | 0, _ => none
+  | _, [] => none
+  | fuel + 1, tok :: rest =>
+    if tok == "and" || tok == "or" then do
+      let (a, r1) ← parseXPrefix fuel rest
+      let (b, r2) ← parseXPrefix fuel r1
+      pure (if tok == "and" then .and a b else .or a b, r2)
+    else if tok == "not" then do
+      let (a, r1) ← parseXPrefix fuel rest
+      pure (.not a, r1)
+    else (parseXAtom tok).map fun a => (a, rest)
+
+def parseXFilter (s : String) : Option XFilter :=
+  let toks := s.splitOn "~"
+  match parseXPrefix (toks.length + 1) toks with
+  | some (f, []) => some f
+  | _ => none
+
+/-- the typing `ast.Parse` imposes -/
+def xTyped (decl : List (String × SymType)) : XFilter → Bool
+  | .base f => atomTyped decl f
+  | .strFn n _ _ _ => decl.lookup n == some .string
+  | .and a b | .or a b => xTyped decl a && xTyped decl b
+  | .not a => xTyped decl a
+
+/-- a query text, by what it denotes (its spelling — whitespace, keyword case, redundant parentheses, spelling of the
+    numbers — is the harness's business and reaches neither model nor spec) -/
+structure HText where
+  filter : XFilter
+  sort : List SortField
+  skip : Option NumTok
+  limit : Option LimitTok
+
+def parseHText (filter sort skip limit : String) : Option HText := do
+  let f ← parseXFilter filter
+  let s ← parseSort sort
+  let sk ← parseNum skip
+  let li ← parseLimit limit
+  pure ⟨f, s, sk, li⟩
+
+def storeIndex (t : Char) : Nat := if t == 's' then 1 else if t == 'n' then 2 else 0
+def storeVariant (t : Char) : String := if t == 's' then "sub" else if t == 'n' then "noid" else "full"
+def storeRef (t : Char) : StoreRef := if t == 'b' then .bolt else .obj (storeIndex t)
+
+/-- `ast.Parse(<store t>, text)` accepts the text -/
+def textParses (t : Char) (x : HText) : Bool :=
+  (match parsePaging x.skip x.limit with | .ok _ => true | .error _ => false) &&
+  (if t == 'b' then xTyped boltDecl x.filter && sortParses "root" x.sort
+   else xTyped (objDeclOf (storeVariant t)) x.filter && objSortParses (objDeclOf (storeVariant t)) x.sort)
+
+/-- the model's `parse`: a text together with the store whose symbol table reads it -/
+def hParse (tx : HText × Char) : Option CQuery :=
+  if textParses tx.2 tx.1 then
+    match parsePaging tx.1.skip tx.1.limit with
+    | .ok p => some ⟨fun s => evalX s tx.1.filter, tx.1.sort, p⟩
+    | .error _ => none
+  else none
+
+def hStores : HStores :=
+  ⟨fun k => objDeclOf (if k == 1 then "sub" else if k == 2 then "noid" else "full"), wireSchema⟩
+
+def renderHAnswer (forText : Bool) : Answer → String
+  | .obj r => renderObj r
+  | .bolt r => renderExcept r
+  | .parseError => if forText then "err" else "perr"
+  | .noQuery => "noq"
+  | .done => "."
+
+/-- the request a slot stands for, as the caller made it -/
+structure SpecReq where
+  filter : XFilter
+  sort : List SortField
+  skip : Option Int
+  limit : Option Int
+
+structure HDriver where
+  st : HState                            -- model
+  rows : List Row := []                  -- spec: the collection
+  reqs : List (Nat × SpecReq) := []      -- spec: the requests kept in slots
+  started : Bool := false
+
+/-- **specification** of one execution on store `t`: the page of the rows satisfying the filter in the requested order, and
+    their number (a sort list the store cannot order by is refused) -/
+def specExec (t : Char) (rows : List Row) (r : SpecReq) : String :=
+  let m := rows.filter fun row => satX row r.filter
+  let ansOf (schema : Schema) (sort : List SortField) : String := match newRowComparator schema sort with
+    | .ok cmp => renderIds (page cmp r.skip r.limit m) ++ "#" ++ toString (total m)
+    | .error e => errKind e
+  if t == 'b' then
+    let byIdOnly : Bool := match r.sort with
+      | [] => true
+      | f :: _ => f.name == "id"
+    ansOf wireSchema (if byIdOnly then r.sort.take 1 else r.sort)
+  else ansOf ((objDeclOf (storeVariant t)).map fun (n, ty) => (n, ⟨ty, false⟩)) r.sort
+
+def reqOf (x : HText) : SpecReq := ⟨x.filter, x.sort, specSkip x.skip, specLimit x.limit⟩
+
+def setReq (reqs : List (Nat × SpecReq)) (k : Nat) (r : Option SpecReq) : List (Nat × SpecReq) :=
+  let rest := reqs.filter (·.1 != k)
+  match r with
+  | some r => (k, r) :: rest
+  | none => rest
+
+def hStep (spec : Bool) (d : HDriver) (step : String) : Option (HDriver × String) :=
+  let pf := Generated.objectzPaging
+  let bf := Generated.boltzPaging
+  let run (st : HState) (c : Call (HText × Char)) := Query.step hParse pf bf hStores st c
+  match step.splitOn "/" with
+  | ["D", rows, order] => do
+    let c ← parseCase [rows, "true", "-", "-", "-", "-", "-"]
+    if c.rows.isNone && d.started then none else     -- the entities bucket cannot be removed
+    let objs : Option (List Row) := if order == "nil" then none else some (orderObjs order ((c.rows.getD []).map (·.row)))
+    let (st, _) := run d.st (.setData objs c.bolt.bucket)
+    pure ({ d with st := st, rows := c.modelRows, started := true }, ".")
+  | ["T", targets, filter, sort, skip, limit, _spell] => do
+    let x ← parseHText filter sort skip limit
+    let ts := targets.toList
+    if spec then
+      pure (d, ";".intercalate (ts.map fun t =>
+        String.singleton t ++ "=" ++ (if textParses t x then specExec t d.rows (reqOf x) else "err")))
+    else
+      let (st, outs) := ts.foldl (fun (acc : HState × List String) t =>
+        let (st', a) := run acc.1 (.text (storeRef t) (x, t))
+        (st', acc.2 ++ [String.singleton t ++ "=" ++ renderHAnswer true a])) (d.st, [])
+      pure ({ d with st := st }, ";".intercalate outs)
+  | ["P", slot, store, filter, sort, skip, limit, _spell] => do
+    let x ← parseHText filter sort skip limit
+    let k ← slot.toNat?
+    let t := store.toList.headD 'o'
+    let ok := textParses t x
+    let (st, a) := run d.st (.parse k (x, t))
+    pure ({ d with st := st, reqs := setReq d.reqs k (if ok then some (reqOf x) else none) },
+          if spec then (if ok then "." else "perr") else renderHAnswer false a)
+  | ["C", slot, targets] => do
+    let k ← slot.toNat?
+    let ts := targets.toList
+    if spec then
+      match d.reqs.lookup k with
+      | none => pure (d, "noq")
+      | some r => pure (d, ";".intercalate (ts.map fun t => String.singleton t ++ "=" ++ specExec t d.rows r))
+    else
+      match d.st.slots k with
+      | none => pure (d, "noq")
+      | some _ =>
+        let (st, outs) := ts.foldl (fun (acc : HState × List String) t =>
+          let (st', a) := run acc.1 (.exec k (storeRef t))
+          (st', acc.2 ++ [String.singleton t ++ "=" ++ renderHAnswer true a])) (d.st, [])
+        pure ({ d with st := st }, ";".intercalate outs)
+  | ["S", slot, v] => do
+    let k ← slot.toNat?
+    let v ← v.toInt?
+    let (st, _) := run d.st (.setSkip k v)
+    pure ({ d with st := st, reqs := match d.reqs.lookup k with
+      | some r => setReq d.reqs k (some { r with skip := some v })
+      | none => d.reqs }, ".")
+  | ["L", slot, v] => do
+    let k ← slot.toNat?
+    let v ← v.toInt?
+    let (st, _) := run d.st (.setLimit k v)
+    pure ({ d with st := st, reqs := match d.reqs.lookup k with
+      | some r => setReq d.reqs k (some { r with limit := some v })
+      | none => d.reqs }, ".")
+  | _ => none
+
+def histLine (spec : Bool) (steps : List String) : String :=
+  match steps with
+  | [] => "bad-case"
+  | first :: _ =>
+    if !first.startsWith "D/" then "bad-case" else
+    let init : HDriver := { st := ⟨none, none, fun _ => none⟩ }
+    let r := steps.foldl (fun (acc : Option (HDriver × List String)) s =>
+      match acc with
+      | none => none
+      | some (d, outs) => (hStep spec d s).map fun (d', o) => (d', outs ++ [o])) (some (init, []))
+    match r with
+    | some (_, outs) => "|".intercalate outs
+    | none => "bad-case"
+
 def parseLine (line : String) : Option (Case × String × String × List (Bytes × String)) :=
   match splitSp line with
   | ["o", rows, filter, sort, skip, limit, order, variant, reps] =>
@@ -129,11 +322,13 @@ def parseLine (line : String) : Option (Case × String × String × List (Bytes 
   | _ => none
 
 def step (line : String) : String :=
+  if line.startsWith "H " then histLine false ((splitSp line).drop 1) else
   match parseLine line with
   | some (c, order, variant, reps) => modelLine c order variant reps
   | none => "bad-case"
 
 def specStep (line : String) : String :=
+  if line.startsWith "H " then histLine true ((splitSp line).drop 1) else
   match parseLine line with
   | some (c, _, variant, _) => specLine c variant
   | none => "bad-case"
